@@ -892,6 +892,20 @@ pub fn big_programs() -> Vec<Program> {
         });
         out.push(p);
     }
+    // (1b) more than a thousand commands in the queue of the thread that registered first, among them
+    // (first) the commit of a trace whose start sits in the queue of a thread that registered later
+    {
+        let b = vec![Op::Warm, sig(1), wait(2), finish(0), root(9, "via", 0xB19), Op::Fill { leave: 10_240 - 1_100, via: 9 }, sig(3), wait(5), finish(9)];
+        let a = vec![wait(1), root(0, "r", 0xB18), child(1, "r.c", 0), finish(1), sig(2), wait(5)];
+        let mut p = Program::new("BIG-budget#1").worker("B", b).worker("A", a);
+        p.actors.push(Actor {
+            name: "collector".into(),
+            kind: ActorKind::Collector { atomic: true, pop_yields: 0 },
+            ops: vec![Op::Wait(3), Op::Cycle, Op::Cycle, Op::Signal(5), Op::Cycle],
+            after_exit_of: None,
+        });
+        out.push(p);
+    }
     // (2) a deep and wide tree on one thread: 4 levels of thread-safe spans (15 of them), local
     // nesting of depth 5 with attachments at every level, a dozen sibling local spans
     {
@@ -1025,6 +1039,74 @@ pub fn big_programs() -> Vec<Program> {
         ops.push(finish(0));
         out.push(Program::new("BIG-quiet#1").worker("A", ops).collector(0, true, 0));
     }
+    // (5b) sixty attachments by handle, alternating between two traces (and between properties and
+    // events), all taken by one cycle: each record keeps them in the order they were made
+    {
+        let mut ops = vec![root(0, "a", 0xB68), root(1, "b", 0xB69), child(2, "a.c", 0)];
+        for k in 0..60u32 {
+            let slot = [0u32, 1, 2][(k % 3) as usize];
+            if k % 2 == 0 {
+                ops.push(addprop(slot, &format!("k{k}"), &format!("v{k}")));
+            } else {
+                ops.push(addevent(slot, &format!("e{k}")));
+            }
+        }
+        ops.extend([finish(2), finish(0), finish(1)]);
+        out.push(Program::new("BIG-attach-order#1").worker("A", ops).collector(0, true, 0));
+    }
+    // (5a) twenty properties at once through every route (creation of a root, a child, a local
+    // span; by handle; through the local parent; on events)
+    {
+        let props: Vec<(String, String)> = (0..20).map(|i| (format!("p{i}"), format!("v{i}"))).collect();
+        let ops = vec![
+            Op::Root { slot: 0, name: "r".into(), trace: U128(0xB67), remote_parent: 0, sampled: true, props: props.clone() },
+            Op::Child { slot: 1, name: "c".into(), parents: vec![0], single: true, props: props.clone() },
+            Op::AddProps { slot: 1, props: props.clone() },
+            Op::AddEvent { slot: 0, name: "e".into(), props: props.clone() },
+            scope(1),
+            Op::LocalEnter { name: "l".into(), props: props.clone() },
+            Op::LocalAddProps { props: props.clone() },
+            Op::LocalAddEvent { name: "le".into(), props: props.clone() },
+            pop(),
+            Op::LocalAddProps { props: props.clone() },
+            pop(),
+            finish(1),
+            finish(0),
+        ];
+        out.push(Program::new("BIG-props#1").worker("A", ops).collector(1, true, 0));
+    }
+    // (5c) two open traces, forty spans of the first and three of the second finished before one
+    // cycle that runs while both roots are still open; then the roots finish
+    {
+        let mut ops = vec![root(0, "a", 0xB6A), root(1, "b", 0xB6B)];
+        for k in 0..40u32 {
+            ops.push(child(10 + k, &format!("a{k}"), 0));
+            ops.push(finish(10 + k));
+        }
+        for k in 0..3u32 {
+            ops.push(child(60 + k, &format!("b{k}"), 1));
+            ops.push(finish(60 + k));
+        }
+        ops.push(Op::Cycle);
+        ops.extend([child(70, "b.late", 1), finish(70), Op::Cycle, finish(1), finish(0)]);
+        out.push(Program::new("BIG-busy-cycle#1").worker("A", ops).collector(0, true, 0));
+    }
+    // (5d) seventy traces started one after the other on one thread, each still open when the
+    // next one starts, each with a child finished on the way
+    {
+        let mut ops = vec![root(0, "t0", 0xC000)];
+        for k in 1..70u32 {
+            ops.push(root(k, &format!("t{k}"), 0xC000 + k as u128));
+            ops.push(child(100 + k, &format!("t{}.c", k - 1), k - 1));
+            ops.push(finish(100 + k));
+            ops.push(finish(k - 1));
+            if k % 16 == 0 {
+                ops.push(Op::Cycle);
+            }
+        }
+        ops.push(finish(69));
+        out.push(Program::new("BIG-many-traces#1").worker("A", ops).collector(0, true, 0));
+    }
     // (6) one trace with 600 spans finished before its root, all delivered by one cycle
     {
         let mut ops = vec![root(0, "r", 0xB70)];
@@ -1034,6 +1116,51 @@ pub fn big_programs() -> Vec<Program> {
         }
         ops.push(finish(0));
         out.push(Program::new("BIG-records#1").worker("A", ops).collector(0, true, 0));
+    }
+    out
+}
+
+/// C16 / C07: long parent lists made of spans that do not record (no-op spans), alone and with one
+/// real parent among them: the child of nothing-but-no-ops is itself inert, whatever the length.
+pub fn noop_parents_programs() -> Vec<Program> {
+    let mut out = Vec::new();
+    for n in [1u32, 4, 5, 6, 12] {
+        for real in [false, true] {
+            let mut ops = Vec::new();
+            for k in 0..n {
+                ops.push(Op::Noop { slot: k });
+            }
+            let mut parents: Vec<u32> = (0..n).collect();
+            if real {
+                ops.push(root(50, "r", 0x16F));
+                parents.insert((n / 2) as usize, 50);
+            }
+            ops.push(child_of(60, "m", &parents));
+            ops.push(Op::Elapsed { slot: 60 });
+            ops.push(Op::AddProps { slot: 60, props: vec![("k".into(), "v".into())] });
+            ops.push(Op::AddEvent { slot: 60, name: "e".into(), props: vec![("ek".into(), "ev".into())] });
+            ops.push(Op::ObserveSpan { slot: 60 });
+            ops.push(scope(60));
+            ops.push(Op::ObserveLocal);
+            ops.push(Op::LocalEnter { name: "l".into(), props: vec![("lk".into(), "lv".into())] });
+            ops.push(Op::LocalAddProps { props: vec![("lk2".into(), "lv2".into())] });
+            ops.push(pop());
+            ops.push(lchild(61, "lc"));
+            ops.push(Op::Elapsed { slot: 61 });
+            ops.push(finish(61));
+            ops.push(pop());
+            ops.push(child(62, "mc", 60));
+            ops.push(Op::Elapsed { slot: 62 });
+            ops.push(finish(62));
+            ops.push(finish(60));
+            if real {
+                ops.push(finish(50));
+            }
+            for k in 0..n {
+                ops.push(finish(k));
+            }
+            out.push(Program::new(format!("C16-noop-parents#{n}.{}", real as u32)).worker("A", ops).collector(0, true, 0));
+        }
     }
     out
 }
